@@ -140,6 +140,10 @@ fn record_ids(x: &ArrayView2<f64>, nf: usize) -> Result<Vec<usize>, String> {
     if x.ncols() != nf {
         return Err(format!("records have {} columns, expected {nf}", x.ncols()));
     }
+    if nf == 0 {
+        // a dataset without feature columns: rows carry no tag, only their number is observable
+        return Ok(vec![0; x.nrows()]);
+    }
     let mut ids = Vec::with_capacity(x.nrows());
     for r in x.axis_iter(Axis(0)) {
         let (id0, _) = id_of(r[0]);
@@ -247,10 +251,13 @@ impl<'c, I: TargetDim> Fit<ArrayView2<'c, f64>, ArrayView<'c, f64, I>, SimError>
         let mut fold = 0;
         match (rid, tid) {
             (Ok(r), Ok(t)) => {
-                if r != t {
+                if self.nf > 0 && r != t {
                     log.violations.push("a record is no longer attached to its own target in a training part".into());
                 }
-                match self.geo.complement_block(&r) {
+                if r.len() != t.len() {
+                    log.violations.push("training records and targets have different numbers of rows".into());
+                }
+                match self.geo.complement_block(if self.nf > 0 { &r } else { &t }) {
                     Ok(i) => fold = i,
                     Err(e) => log.violations.push(e),
                 }
@@ -357,7 +364,7 @@ fn eval_body<I: TargetDim>(
                         let pid = (v / TAG_ID).floor() as usize;
                         let rest = (v % TAG_ID) as usize;
                         let (pf, pm, pc) = (rest / 1024, (rest % 1024) / 16, rest % 16);
-                        if pid != *id || pc != c {
+                        if (case.nf > 0 && pid != *id) || pc != c {
                             lg.violations.push(format!("prediction row for sample {pid} (col {pc}) evaluated against target of sample {id} (col {c})"));
                         }
                         model = pm;
@@ -582,6 +589,10 @@ fn drive_iter_fold<I, D, S>(
         out.violation.get_or_insert(format!("iter_fold yielded {} pairs for k = {}", pairs.len(), case.k));
     }
     for (i, (fold, r, t)) in pairs.iter().enumerate() {
+        let r = if case.nf > 0 { r } else { t };
+        if r.len() != t.len() {
+            out.violation.get_or_insert("validation records and targets have different numbers of rows".into());
+        }
         if r != t {
             out.violation.get_or_insert("a validation record is no longer attached to its own target".into());
         }
@@ -612,6 +623,12 @@ where
         let check = |d: &DatasetBase<Array2<f64>, T::Owned>| -> Result<Vec<usize>, String> {
             let r = record_ids(&d.records().view(), case.nf)?;
             let t = target_ids(&d.as_targets(), ncols)?;
+            if r.len() != t.len() {
+                return Err("records and targets have different numbers of rows".into());
+            }
+            if case.nf == 0 {
+                return Ok(t);
+            }
             if r != t {
                 return Err("a record is no longer attached to its own target".into());
             }
@@ -922,6 +939,14 @@ pub fn plan(tier: &str, seed: u64) -> Plan {
             panic_at: None,
             special: r.chance(0.2),
         });
+    }
+    // datasets without feature columns (legal: only the targets carry information)
+    for (n, k) in [(4usize, 2usize), (7, 3), (9, 4), (6, 6)] {
+        for nt in [0usize, 2] {
+            for api in [Api::Fold, Api::IterFold, Api::CrossValidate] {
+                cases.push(Case { api, n, k, nf: 0, nt, layout: Layout::Owned, models: 2, faults: vec![], f32acc: false, dyadic: true, val_seed: 5, panic_at: None, special: false });
+            }
+        }
     }
     // no candidate model at all ("any number of candidate models"): nothing to fit or score,
     // the dataset must still come back intact and the result is an empty score array
